@@ -162,8 +162,7 @@ def r1_spacing_to_size(ctx):
 def r2_line_coordinates(ctx):
     qn = "verde.coordinates.line_coordinates"
     paths = ctx.paths(qn)
-    both = any(p.exit == "raise" and lookup(p.decided, ("cmp", "is", ("param", "size"), NONE)) is False and lookup(p.decided, ("cmp", "is", ("param", "spacing"), NONE)) is False for p in paths)
-    neither = any(p.exit == "raise" and lookup(p.decided, ("cmp", "is", ("param", "size"), NONE)) is True and lookup(p.decided, ("cmp", "is", ("param", "spacing"), NONE)) is True for p in paths)
+    both, neither = K.both_neither(ctx, qn, "size", "spacing")
     ctx.check("R2", qn + "|rejects-both", both, "both size and spacing raise", bad="both size and spacing no longer raise", fn=qn)
     ctx.check("R2", qn + "|rejects-neither", neither, "neither size nor spacing raises", bad="neither size nor spacing no longer raises", fn=qn)
     sts = ("call", ("glob", "verde.coordinates.spacing_to_size"), (("param", "start"), ("param", "stop"), ("param", "spacing"), ("param", "adjust")), (), 0)
